@@ -834,7 +834,24 @@ func search(r *hx.Rng, n int, dist map[string]int) (evals int, distinct int, vs 
 	inDomain := func(v *big.Int) bool { return new(big.Int).Abs(v).Cmp(lim) < 0 }
 	for i := 0; i < n; i++ {
 		evals++
-		switch r.Intn(8) {
+		switch r.Intn(9) {
+		case 8: // stake / refund helpers: exact below 2^53 whole coins, and agreeing with each other
+			n := genU64(r, dist)
+			if n >= 1<<53 {
+				n >>= 11
+			}
+			op := "stake " + strconv.FormatUint(n, 10)
+			seen[op] = true
+			want := new(big.Int).Mul(new(big.Int).SetUint64(n), pow10(18))
+			if got := utility.Float64ToBigInt(float64(n)); got == nil || got.Cmp(want) != 0 {
+				add("stake-exact", op, "Float64ToBigInt(float64(n)) = "+showInt(got, nil)+" want "+want.String())
+			}
+			if got := utility.Uint64ToBigInt(n); got == nil || got.Cmp(want) != 0 {
+				add("uint64-exact", "u64 "+strconv.FormatUint(n, 10), "Uint64ToBigInt(n) = "+showInt(got, nil)+" want "+want.String())
+			}
+			if v, err := strconv.ParseUint(utility.BigIntToStrWithoutDot(want), 10, 0); err != nil || v != n {
+				add("stakearg", "stakearg "+want.String(), "ParseUint(BigIntToStrWithoutDot(n*10^18)) = "+strconv.FormatUint(v, 10))
+			}
 		case 7: // a game transfer of an in-domain decimal amount moves exactly that amount (game.go)
 			bal := genNat(r, dist)
 			if !inDomain(bal) {
